@@ -137,6 +137,7 @@ func (ex *Exec) verifyFunction(fn *ssa.Function, con *Contract) (rep *FuncReport
 		}
 	}()
 	con.Used = true
+	resetClosureIDs()
 	ex.facts = nil
 	ex.factBlk = nil
 	ex.curBlk = nil
@@ -493,6 +494,7 @@ func underPred(p *Term, pred func(*Term) *Term, depth int) *Term {
 
 // verifyLemma proves a package-level lemma (closed specification formula).
 func (ex *Exec) verifyLemma(cl *Clause, pkgPath string) (rep *FuncReport) {
+	resetClosureIDs()
 	pk := ex.prog.Pkgs[pkgPath]
 	label := pk.Types.Name() + ".lemma"
 	rep = &FuncReport{Func: label + "[" + cl.Label + "]", Contract: fmt.Sprintf("%s:%d", shortFile(cl.File), cl.Line)}
